@@ -1,10 +1,13 @@
 import MuduoVerif.Proofs.LogStream
+import MuduoVerif.Proofs.LogStreamTid
+import MuduoVerif.Proofs.LogStreamNum
 /-!
 # C17 — log text equals printf output, stays in bounds and carries true metadata
 
 Property theorems only; lemmas live in `Proofs/LogStream*.lean`.  The model
 (`Model/LogStream.lean`) uses the constants, digit tables, space guards, printf formats,
-line pieces, macro gates and the `formatSI`/`formatIEC` branch tables of
+line pieces, the statement order of `Logger::Impl::Impl`, the tid-cache guards / initial values / start-up steps,
+macro gates and the `formatSI`/`formatIEC` branch tables of
 `Generated/LogStream.lean`, re-extracted from /repo on every run.
 -/
 namespace MuduoVerif.C17
@@ -88,5 +91,159 @@ theorem basename_spec (path : Bytes) :
   · right
     have : x = 47 := by simpa using hx
     rw [h, this]; simp
+
+/-! ## the thread id -/
+
+/-- the extracted `Logger::Impl::Impl` calls `CurrentThread::tid()` before it reads `tidString()` (the Boolean the
+generator computed from the AST is the one the model's reading of the statement list gives) -/
+theorem tid_cached_before_use : tidCachedBeforeUse = true ∧ cachedBeforeUse implSteps = true :=
+  ⟨by decide, by rw [← tidCachedBeforeUse_tie]; decide⟩
+
+/-- **each emitted line carries the calling thread's id**: for every state of the thread's tid cache — nothing
+cached yet (a thread that reaches the logger without having run any other muduo code, whatever its three
+thread-local variables hold) or its own id cached — the line consists of the time stamp (17 characters and the
+8 / 9 characters of the microsecond field), then exactly the `"%5d "` rendering of `gettid()` of the calling thread
+(right-aligned in five columns, then a space), then the rest; the `assert` of the helper class `T` holds (no abort
+in a build with asserts), and afterwards the thread has its own id cached.  The proof goes through
+`tidCachedBeforeUse`: it is the call `CurrentThread::tid();` in `Impl::Impl` that makes the two cases equal. -/
+theorem tid_field_true (z : Zone) (c : TimeCache) (t : TidState) (r : LogReq)
+    (hpos : 0 < r.tid) (hmax : r.tid < 2 ^ 31)
+    (ht : t.cached = 0 ∨ t = TidState.of r.tid) :
+    (∃ stamp rest, stamp.length = 17 + usWidth z ∧
+      (logLine z c t r).text = stamp ++ (fmtInt false 5 r.tid ++ [32]) ++ rest) ∧
+    (logLine z c t r).asserts = true ∧ (logLine z c t r).tid = TidState.of r.tid := by
+  have h0 : r.tid ≠ 0 := by omega
+  have hb : tidCachedBeforeUse = true := tid_cached_before_use.1
+  rw [tidCachedBeforeUse_tie] at hb
+  -- whatever the thread had cached, `Impl::Impl` does what it does on a thread that has cached its own id
+  have hrun : implRun z (lineEnv z c t r) implSteps = implRun z (lineEnv z c (TidState.of r.tid) r) implSteps :=
+    implRun_cached z implSteps hb (lineEnv z c t r) h0 ht
+  have hasserts : ∀ e : LineEnv, e.req.tid ≠ 0 → e.tid.okFor e.req.tid →
+      implAsserts z e implSteps = implAsserts z { e with tid := TidState.of e.req.tid } implSteps := by
+    intro e h0 hok
+    rcases hok with hk | hk
+    · simp [implSteps, implAsserts, implStep, tidCall_empty _ _ hk, tidCall_of _ h0]
+    · rw [← hk]
+  have htext : (logLine z c t r).text = (logLine z c (TidState.of r.tid) r).text := by
+    simp only [logLine, logLineOf, lineItemsOf, hrun]
+  refine ⟨?_, ?_, ?_⟩
+  · rw [htext]
+    obtain ⟨tail, e⟩ := implRun_shape z (lineEnv z c (TidState.of r.tid) r)
+    have hf : tidField (tidCall r.tid (TidState.of r.tid)) = fmtInt false 5 r.tid ++ [32] := by
+      rw [tidCall_of _ h0, tidField_of, tidText_eq]
+    exact line_three implSteps z c (TidState.of r.tid) r _ (fmtInt_space_length r.tid (by omega) (by omega))
+      ⟨tail, by rw [e]; simp only [lineEnv, hf]⟩
+  · have := hasserts (lineEnv z c t r) h0 ht
+    simp only [logLine, logLineOf]
+    rw [this]
+    exact implAsserts_of z _ h0 rfl
+  · simp only [logLine, logLineOf, hrun]
+    simp [implSteps, implRun, implStep, lineEnv, tidCall_of _ h0]
+
+/-- **the excluded branch** — what the line would be without the call (the statement list of `Impl::Impl` with
+`CurrentThread::tid();` taken out) on a thread that has run nothing of muduo: in place of the id, six bytes of the
+zero-filled `t_tidString` (`t_tidStringLength` is statically 6), and the `assert` of `T` fails -/
+theorem tid_field_without_call (z : Zone) (c : TimeCache) (r : LogReq) :
+    (∃ stamp rest, stamp.length = 17 + usWidth z ∧
+      (logLineOf (implSteps.filter (· ≠ .callTid)) z c TidState.fresh r).text = stamp ++ List.replicate 6 0 ++ rest) ∧
+    (logLineOf (implSteps.filter (· ≠ .callTid)) z c TidState.fresh r).asserts = false := by
+  constructor
+  · obtain ⟨tail, e⟩ := implRun_shape_nocall z (lineEnv z c TidState.fresh r)
+    exact line_three _ z c TidState.fresh r _ (by decide)
+      ⟨tail, by rw [e]; simp only [lineEnv, tidField_fresh.1]⟩
+  · have hf : implSteps.filter (· ≠ .callTid) = [.formatTime, .ins [.tid], .ins [.level 6],
+        .errnoIf [.errtext, .lit [32, 40, 101, 114, 114, 110, 111, 61], .errno, .lit [41, 32]]] := by decide
+    have := tidField_fresh.2
+    simp only [logLineOf]
+    rw [hf]
+    simp [implAsserts, implStep, lineEnv, this]
+
+/-- **every kind of thread reaches its first log statement in a state `tid_field_true` covers**: the main thread (the
+static initialiser called `tid()`), a `muduo::Thread` (`runInThread` calls it), a thread made with `pthread_create`
+(nothing cached, or its own id when it called `tid()` itself), and the child of a `fork()` — whose cache, copied
+from the forking thread with the *parent's* id in it, was reset and refilled by the registered `afterFork`
+handler, so that the child's line carries the child's id -/
+theorem entry_state_ok (tid : Int) (kind : ThreadKind) :
+    (entryState tid kind).cached = 0 ∨ entryState tid kind = TidState.of tid := by
+  cases kind with
+  | main => right; show tidCall tid TidState.fresh = _; exact tidCall_empty tid _ rfl
+  | muduoThread => right; show tidCall tid TidState.fresh = _; exact tidCall_empty tid _ rfl
+  | foreign called =>
+    cases called
+    · left; rfl
+    · right; show tidCall tid TidState.fresh = _; exact tidCall_empty tid _ rfl
+  | forkChild ptid parent =>
+    right
+    have hr : atforkChildRegistered = true := by decide
+    simp only [entryState, hr, if_true, afterForkSteps, tidRun, List.foldl_cons, List.foldl_nil, tidStep]
+    exact tidCall_empty tid _ rfl
+
+/-- **… on every kind of thread, also in a forked child**: the line of a thread of any kind carries that thread's
+own id; for the child of a `fork()` this holds whatever the forking thread had cached (in particular its own,
+different, id) -/
+theorem tid_field_true_all_kinds (z : Zone) (c : TimeCache) (r : LogReq) (kind : ThreadKind)
+    (hpos : 0 < r.tid) (hmax : r.tid < 2 ^ 31) :
+    ∃ stamp rest, stamp.length = 17 + usWidth z ∧
+      (logLine z c (entryState r.tid kind) r).text = stamp ++ (fmtInt false 5 r.tid ++ [32]) ++ rest :=
+  (tid_field_true z c _ r hpos hmax (entry_state_ok r.tid kind)).1
+
+/-- the hypotheses are satisfiable, and the field is what one expects: thread 1234 that has cached nothing logs ` 1234 ` -/
+example : ((logLine none TimeCache.fresh TidState.fresh
+    { level := 2, errno := 0, errText := [], func := none, file := [97], line := 1, tid := 1234, us := 1000000,
+      msg := [] }).text.drop 26).take 6 = [32, 49, 50, 51, 52, 32] := by decide
+
+/-! ## the time stamp (F18: known finding) -/
+
+/-- **the time field is the break-down of the logged instant in the configured zone** — as far as the code
+guarantees it: when the thread's cached second differs from the instant's second (the text is rebuilt in the zone
+in force) or the cached text was built in the zone that is still configured.  The line starts with the first 17
+characters of `"%4d%02d%02d %02d:%02d:%02d"` of `toLocalTime` / `toUtcTime` of that second. -/
+theorem line_time_partial (z : Zone) (c : TimeCache) (t : TidState) (r : LogReq)
+    (h : cacheMiss (splitSeconds r.us) c.lastSecond ∨ c.text = secondText z (splitSeconds r.us)) :
+    ∃ rest, (logLine z c t r).text = readN 17 (secondText z (splitSeconds r.us)) ++ rest := by
+  have ht : (lineEnv z c t r).timeText = secondText z (splitSeconds r.us) := by
+    simp only [lineEnv, cacheStep]
+    by_cases hm : cacheMiss (splitSeconds r.us) c.lastSecond
+    · simp [hm]
+    · simp [hm, h.resolve_left hm]
+  obtain ⟨tail, e⟩ := implRun_shape z (lineEnv z c t r)
+  simp only [logLine, logLineOf, lineItemsOf, e, List.cons_append, ht]
+  rw [run_str _ _ _ (by simp [readN_length, avail, mkBuf, kSmallBuffer])]
+  obtain ⟨more, em⟩ := run_prefix { mkBuf kSmallBuffer with data := (mkBuf kSmallBuffer).data ++ readN 17 (secondText z (splitSeconds r.us)) } _
+  exact ⟨more, by rw [em]; simp [mkBuf]⟩
+
+/-- **F18, negation witness**: without that hypothesis the statement is false — the line logged 0.1 s after
+`Logger::setTimeZone(+8h)`, in the same second as the previous line of the thread, shows the UTC wall time
+(`20260926 21:02:08`), not the time in the configured zone (`20260927 05:02:08`) -/
+theorem line_time_fails_witness :
+    ∃ (ops : List LogOp) (z : Zone) (us : Int),
+      ops = [.log (f18Req 1790456528568059), .setZone z, .log (f18Req us)] ∧
+      ((logRun (LogState.init (TidState.of 1400)) ops).getD 1 []).take 17 ≠ readN 17 (secondText z (splitSeconds us)) :=
+  ⟨_, some 28800, 1790456528668059, rfl, by decide +kernel⟩
+
+/-! ## formatSI / formatIEC -/
+
+/-- **`formatSI` renders every `0 ≤ n < 2^63` in at most 5 characters** (on the exact model of the `int64 → double`
+conversion, the correctly rounded division and `%.Nf`; the branch table is the extracted one) -/
+theorem formatSI_width (n : Nat) (h : n < 2 ^ 63) : (formatSI n).length ≤ 5 := by
+  unfold formatSI
+  split
+  · rename_i hlt
+    have : n < 10 ^ (2 + 1) := by simp only [siIntBelow] at hlt; omega
+    have := decimalNat_length_le 2 n this
+    omega
+  · exact siGo_length siTable (by decide +kernel) n h
+
+/-- **`formatIEC` renders every `0 ≤ n < 2^63` in at most 6 characters** (all comparisons are made on the value
+converted to `double`: a bound like `Pi*99.95` is itself a `double`, and the converted value below it is at most the
+`double` in front of it) -/
+theorem formatIEC_width (n : Nat) (h : n < 2 ^ 63) : (formatIEC n).length ≤ 6 := by
+  unfold formatIEC
+  split
+  · rename_i hlt
+    have h2 : n < 1024 := rnInt_lt_small n 1024 (by omega) (by simpa [iecIntBelow] using hlt)
+    have := decimalNat_length_le 3 n (by omega)
+    omega
+  · exact iecGo_length_double iecTable iecTable_ok n (rnInt_le n _ (by omega) (rep_two_pow 63))
 
 end MuduoVerif.C17
